@@ -24,8 +24,10 @@ CONSTANTS MaxAddr,        \* registers 0..MaxAddr are mapped
           Depth, Tampers
 
 VARIABLES regs, hist,
-          transport   \* "rtu" or "tcp", fixed for a session
-svars == <<regs, hist, transport>>
+          transport,  \* "rtu" or "tcp", fixed for a session
+          late        \* TCP: the response to the previous call was held back past the client's
+                      \* timeout and is the first thing the client reads in this call
+svars == <<regs, hist, transport, late>>
 
 Content(a) == (a * 40503 + 12345) % 65536
 NoVal == [a \in {} |-> "x"]
@@ -57,26 +59,33 @@ Call(m, a, n, t) ==
         \* wrong id, and it is the client that rejects the response.
         reached == IF transport = "rtu" THEN t \notin {"req-integrity", "req-truncate", "unit"}
                    ELSE t \notin {"req-truncate", "unit"}
-        result == IF ~reached \/ t # "none" THEN CErr
+        \* a late response carries the transaction id of the call it answers: the client must not
+        \* take it for the answer to this call ("resp-late" is a TCP tamper; RTU has no such guard)
+        result == IF ~reached \/ t # "none" \/ late THEN CErr
                   ELSE ClientResult(m, r, n)
     IN /\ Cardinality(o.resps) = 1        \* well-formed requests have one specified response
        /\ regs' = IF reached THEN o.regs ELSE regs
        /\ hist' = Append(hist, [m |-> m, a |-> a, n |-> n, t |-> t,
                                 ok |-> result # CErr,
                                 vals |-> IF result = CErr THEN <<>> ELSE result,
-                                lenient |-> t = "none" /\ ~RespFits(r),
+                                lenient |-> t = "none" /\ ~late /\ ~RespFits(r),
                                 \* a response longer than the client's buffer leaves bytes
                                 \* in the stream: the driver opens a fresh connection
-                                resync |-> reached /\ ~RespFits(r)])
+                                \* after a late response was read the real answer is still in the stream
+                                resync |-> (reached /\ ~RespFits(r)) \/ late])
+       \* (a held-back response that needs a fresh connection anyway is gone with the old one)
+       /\ late' = (t = "resp-late" /\ RespFits(r))
        /\ UNCHANGED transport
 
 Init == /\ regs = [a \in 0..MaxAddr |-> Content(a)]
-        /\ hist = <<>>
+        /\ hist = <<>> /\ late = FALSE
         /\ transport \in {"rtu", "tcp"}
 
 Next == /\ Len(hist) < Depth
         /\ \E m \in Methods, a \in AddrsS, t \in Tampers :
-              \E n \in (IF m \in {"ReadCoils", "ReadDiscreteInputs"} THEN BitCounts
+              /\ (t = "resp-late" => transport = "tcp" /\ ~late)
+              /\ (late => t = "none")
+              /\ \E n \in (IF m \in {"ReadCoils", "ReadDiscreteInputs"} THEN BitCounts
                         ELSE IF m \in {"ReadHoldingRegs", "ReadInputRegs"} THEN RegCounts
                         ELSE IF m = "WriteSingleCoil" THEN {0, 1} ELSE WordVals) :
                   Call(m, a, n, t)
@@ -89,13 +98,15 @@ CountsOf(m) == IF m \in {"ReadCoils", "ReadDiscreteInputs"} THEN BitCounts
                ELSE IF m \in {"ReadHoldingRegs", "ReadInputRegs"} THEN RegCounts
                ELSE IF m = "WriteSingleCoil" THEN {0, 1} ELSE WordVals
 VARIABLE pend
-gvars == <<regs, hist, transport, pend>>
+gvars == <<regs, hist, transport, late, pend>>
 None == [m |-> "none", a |-> 0, n |-> 0, t |-> "none"]
 GenInit == Init /\ pend = None
 Pick == /\ pend = None /\ Len(hist) < Depth
         /\ \E m \in Methods, a \in AddrsS, t \in Tampers : \E n \in CountsOf(m) :
-               pend' = [m |-> m, a |-> a, n |-> n, t |-> t]
-        /\ UNCHANGED <<regs, hist, transport>>
+               /\ (t = "resp-late" => transport = "tcp" /\ ~late)
+               /\ (late => t = "none")
+               /\ pend' = [m |-> m, a |-> a, n |-> n, t |-> t]
+        /\ UNCHANGED <<regs, hist, transport, late>>
 Exec == /\ pend # None
         /\ Call(pend.m, pend.a, pend.n, pend.t)
         /\ pend' = None
@@ -120,6 +131,9 @@ ReadMatchesFile ==
         /\ h.m = "WriteSingleCoil" => CoilOf(regs, h.a) = h.n
 TamperedIsError ==
     hist # <<>> => LET h == hist[Len(hist)] IN h.t # "none" => ~h.ok
+\* the call after a held-back response never succeeds with that response
+LateIsError ==
+    Len(hist) >= 2 => ((hist[Len(hist) - 1].t = "resp-late" /\ ~hist[Len(hist) - 1].resync) => ~hist[Len(hist)].ok)
 
 Dump == Len(hist) = Depth => PrintT(ToJson([transport |-> transport, steps |-> hist]))
 =============================================================================
